@@ -536,6 +536,31 @@ pub fn leb128(mut v: u64) -> Vec<u8> {
     out
 }
 
+thread_local! {
+    /// extra (padding) bytes appended to every obu_size written by `obu` on this thread: the
+    /// specification (4.10.5) allows non-minimal LEB128 encodings of up to 8 bytes
+    static LEB_PAD: std::cell::Cell<usize> = const { std::cell::Cell::new(0) };
+}
+
+pub fn set_leb_padding(n: usize) {
+    LEB_PAD.with(|c| c.set(n));
+}
+
+/// LEB128 with `pad` extra bytes (continuation bit on the minimal encoding's last byte, then
+/// 0x80 ... 0x00), never longer than 8 bytes in total.
+pub fn leb128_padded(v: u64, pad: usize) -> Vec<u8> {
+    let mut out = leb128(v);
+    let pad = pad.min(8usize.saturating_sub(out.len()));
+    if pad > 0 {
+        *out.last_mut().unwrap() |= 0x80;
+        for _ in 1..pad {
+            out.push(0x80);
+        }
+        out.push(0x00);
+    }
+    out
+}
+
 /// Wrap a payload into an OBU. `ext`: optional extension byte; `has_size`: emit obu_size.
 pub fn obu(obu_type: u8, payload: &[u8], has_size: bool, ext: Option<u8>) -> Vec<u8> {
     let mut out = vec![(obu_type << 3) | ((ext.is_some() as u8) << 2) | ((has_size as u8) << 1)];
@@ -543,7 +568,7 @@ pub fn obu(obu_type: u8, payload: &[u8], has_size: bool, ext: Option<u8>) -> Vec
         out.push(e);
     }
     if has_size {
-        out.extend_from_slice(&leb128(payload.len() as u64));
+        out.extend_from_slice(&leb128_padded(payload.len() as u64, LEB_PAD.with(|c| c.get())));
     }
     out.extend_from_slice(payload);
     out
@@ -577,6 +602,14 @@ pub struct Av1Frame {
 
 /// A temporal unit: [temporal delimiter] [sequence header] [metadata?] frame OBU.
 pub fn gen_temporal_unit(r: &mut Rng, key: bool, with_seq: bool, payload_len: usize) -> Av1Frame {
+    // one unit in six writes its size fields with 1..7 padding bytes
+    set_leb_padding(if r.chance(1, 6) { r.range(1, 7) as usize } else { 0 });
+    let f = gen_temporal_unit_inner(r, key, with_seq, payload_len);
+    set_leb_padding(0);
+    f
+}
+
+fn gen_temporal_unit_inner(r: &mut Rng, key: bool, with_seq: bool, payload_len: usize) -> Av1Frame {
     let mut bytes = Vec::new();
     if r.chance(3, 4) {
         bytes.extend_from_slice(&obu(2, &[], true, if r.chance(1, 8) { Some(r.byte() & 0xf8) } else { None }));
